@@ -371,7 +371,34 @@ func checkCase(c Case) error {
 	if err := checkOption(opt, want); err != nil {
 		return fmt.Errorf("EFILoadOption.Unmarshal: %v", err)
 	}
-	return checkOrder(c.Order, c.Existing, want.Encode(), &want, c.Legacy)
+	// the two-step route the package exports (header and description, then the path list), the path list read
+	// through a reader that offers nothing but Read in small pieces
+	enc := want.Encode()
+	buf := bytes.NewBuffer(append([]byte{}, enc...))
+	o2, err := device.ParseEFILoadOption(buf)
+	if err != nil {
+		return fmt.Errorf("ParseEFILoadOption rejects a load option built from supported nodes: %v", err)
+	}
+	o2.FilePath, err = device.ParseDevicePath(&hx.PlainReader{R: bytes.NewReader(buf.Bytes()), Chunk: 3})
+	if err != nil {
+		return fmt.Errorf("ParseDevicePath (plain reader) rejects the path list of a load option built from supported nodes: %v", err)
+	}
+	if err := checkOption(o2, want); err != nil {
+		return fmt.Errorf("ParseEFILoadOption + ParseDevicePath: %v", err)
+	}
+	// decoding defines the receiver: a value that held another option before holds exactly the new one afterwards
+	other := devpath.Option{Attributes: ^c.Attributes, Description: "previous occupant", Nodes: []devpath.Node{{Kind: "file", Path: "\\old\\path.efi"}, {Kind: "pci", Function: 1, Device: 2}, {Kind: "usb", Port: 3, Iface: 4}, {Kind: "acpi", HID: 5, UID: 6}}, OptionalData: []byte("old optional data")}
+	reused := &device.EFILoadOption{}
+	if err := reused.Unmarshal(bytes.NewBuffer(other.Encode())); err != nil {
+		return fmt.Errorf("EFILoadOption.Unmarshal rejects a fixed load option: %v", err)
+	}
+	if err := reused.Unmarshal(bytes.NewBuffer(append([]byte{}, enc...))); err != nil {
+		return fmt.Errorf("EFILoadOption.Unmarshal into a value that held another option: %v", err)
+	}
+	if err := checkOption(reused, want); err != nil {
+		return fmt.Errorf("EFILoadOption.Unmarshal into a value that held another option: %v", err)
+	}
+	return checkOrder(c.Order, c.Existing, enc, &want, c.Legacy)
 }
 
 var checker = hx.Checker[Case]{Property: "C18", Gen: genCase, Check: checkCase, Journal: true}
